@@ -129,3 +129,53 @@ def faulty_inner(model, payload):
         if got != {"model": 1} or not st.has_blob("kf"):
             return {"reproduced": True, "detail": "capacity %d: after a failed read of a present blob the cache-wrapped store returns %r for it (the bare store returns the object)" % (cap, got), "inputs": {"capacity": cap, "fault": "fetch_blob"}}
     return {"reproduced": False, "detail": "the wrapper stays coherent with the store after a failed write or read, capacities 1, 2, 10"}
+
+
+def lockstep_readback(model, payload):
+    """The wrapper answers with what the wrapped store reads back, never with an object it was merely handed: lock-step of
+    LRUCacheStore(LocalFileStore) with a bare LocalFileStore over values whose stored form is not the object itself
+    (a bytearray is read back as bytes; a list mutated by the caller after the store keeps its stored content), every
+    order of {store, fetch, has} of length <= 3 per key, capacities 1, 2, 10, unbounded."""
+    import itertools
+    import shutil
+    import sys
+    import tempfile
+    from dds.store import LocalFileStore
+    from dds._lru_store import LRUCacheStore
+
+    def view(x):
+        return (type(x).__name__, repr(x))
+
+    tmp = tempfile.mkdtemp(prefix="dds_h_lru_")
+    n = 0
+    try:
+        for cap in (1, 2, 10, sys.maxsize // 2):
+            for vname in ("bytearray", "mutated_list", "none", "str"):
+                for seq in itertools.product(("store", "fetch", "has"), repeat=3):
+                    n += 1
+                    bare = LocalFileStore(tmp + "/bi%d" % n, tmp + "/bd%d" % n)
+                    lru = LRUCacheStore(LocalFileStore(tmp + "/wi%d" % n, tmp + "/wd%d" % n), num_elem=cap)
+                    for i, o in enumerate(seq):
+                        if o == "store":
+                            if bare.has_blob("k"):
+                                continue  # content addressing: a present key is not stored again
+                            va = {"bytearray": bytearray(b"abc"), "mutated_list": [1, 2], "none": None, "str": "s"}[vname]
+                            vb = {"bytearray": bytearray(b"abc"), "mutated_list": [1, 2], "none": None, "str": "s"}[vname]
+                            lru.store_blob("k", va, None)
+                            bare.store_blob("k", vb, None)
+                            if vname == "mutated_list":
+                                va.append(3)
+                                vb.append(3)
+                            a = b = None
+                        elif o == "fetch":
+                            a, b = view(lru.fetch_blob("k")), view(bare.fetch_blob("k"))
+                        else:
+                            a, b = lru.has_blob("k"), bare.has_blob("k")
+                        if a != b:
+                            return {"reproduced": True, "detail": "local store, capacity %d, value %s, operations %s: step %d %s -> wrapped store answers %r, the bare store %r" % (cap, vname, list(seq), i + 1, o, a, b),
+                                    "inputs": {"capacity": cap, "value": vname, "ops": list(seq)}}
+                    shutil.rmtree(tmp, ignore_errors=True)
+    finally:
+        shutil.rmtree(tmp, ignore_errors=True)
+    return {"reproduced": False, "detail": "%d lock-step histories over values with a non-identical stored form: the wrapped store answers like the bare one" % n}
+
